@@ -140,7 +140,18 @@ pub fn fmt_num(rng: &mut Rng, v: f32, style: u8) -> String {
         0 => vec![plain.clone()],
         1 => vec![format!("{:.6}", v), plain.clone()],
         _ => {
-            let mut c = vec![plain.clone(), format!("{:.6}", v), format!("{:e}", v), format!("{:14}", v)];
+            // C / Fortran style exponents: 1.82E+01, 1.820000e+01
+            let cexp = |upper: bool| {
+                let e = format!("{:e}", v);
+                match e.split_once('e') {
+                    Some((m, x)) => {
+                        let xi: i32 = x.parse().unwrap_or(0);
+                        format!("{}{}{}{:02}", m, if upper { "E" } else { "e" }, if xi < 0 { "-" } else { "+" }, xi.abs())
+                    }
+                    None => e,
+                }
+            };
+            let mut c = vec![plain.clone(), format!("{:.6}", v), format!("{:e}", v), format!("{:E}", v), cexp(true), cexp(false), format!("{:14}", v)];
             if v.fract() == 0.0 && v.abs() < 1e7 {
                 c.push(format!("{}", v as i64));
                 c.push(format!("{}.0", v as i64));
